@@ -317,6 +317,36 @@ def run_case(i, rng, rec, tier, state):
     rho = float(rng.choice([0.5, 2.0, -1.5, 3.25]))
     rec.cls("density!=1")
     _call(rec, s, q[:5].copy(), name, info, density=rho)
+    if (i // 4) % 2 == 0:
+        # evaluate - resize / move - evaluate again on the same object: the monitor judges the second evaluation against
+        # the current geometry, so anything remembered from the first evaluation shows
+        steps = []
+        try:
+            with contracts.quiet():
+                f = float(np.exp(rng.uniform(-0.7, 0.7)))
+                d0 = relkw["d"]
+                for op in (["size"], ["move"], ["size", "move"], ["move", "size"])[int(rng.integers(4))]:
+                    if op == "size":
+                        m = "volume" if hasattr(s, "volume") else "area"
+                        setattr(s, m, abs(float(getattr(s, m))) * f)
+                    elif name == "Sphere":
+                        s.center = np.asarray(s.center, float) + d0 * rng.uniform(-1, 1, size=3)
+                    elif name == "Polygon":
+                        tdir = relkw["tdir"]
+                        t = d0 * rng.uniform(-1, 1, size=3)
+                        s.centroid = np.asarray(s.centroid, float) + (t - tdir * float(t @ tdir))     # in-plane move
+                    else:
+                        s.centroid = np.asarray(s.centroid, float) + d0 * rng.uniform(-1, 1, size=3)
+                    steps.append(op)
+        except Exception as e:
+            rec.note(f"history step refused ({type(e).__name__})")
+        if steps:
+            rec.cls("history:" + "+".join(steps))
+            info2 = dict(info, history=steps)
+            if "vertices" in info2:
+                with contracts.quiet():
+                    info2["vertices"] = np.array(s.vertices, float, copy=True)
+            _call(rec, s, q[:6].copy(), name, info2)
     for j in range(len(q)):
         rec.nontriv(name, info.get("vertices", info.get("radius")), q[j])
     if i < 6:
